@@ -8,7 +8,7 @@ SPEC = {
     "agrees": "C08.agrees",
     "in_domain": "C08.in_domain",
     "model_prop": "fun k => implb (C08.in_domain k) (C08.model_lww k)",
-    "n_quick": 220,
+    "n_quick": 160,
     "n_thorough": 6000,
     "shard": 14,
     "rule": "see harness/props/c08.go: one fixed bucket per case on a real instance in a temp root (catalog, WAL file, Writer, QueryService "
